@@ -10,8 +10,8 @@ package raft
 //vx:pkg github.com/openbao/openbao/v2/internal/physical/raft
 //vx:include apply_batch.go
 //vx:include ../common/raft_models.go
-//vx:param entries quick=3 thorough=4
-//vx:param trimAll quick=0 thorough=1
+//vx:param entriesR quick=3 thorough=3
+//vx:param trimAllR quick=0 thorough=1
 //vx:unwind 400
 //vx:assume (this file) snapshot file handling (close / install / reopen of the bolt file, local node config) is replaced by a model: after Install + openDBFile the FSM's store and latest index are those of the peer at the snapshot index; everything else of FSM.Restore is the real code
 //vx:redirect (*github.com/openbao/openbao/v2/internal/physical/raft.FSM).localNodeConfig vxSILocalNodeConfig
@@ -68,7 +68,8 @@ func vxSIOpenDBFile(f *FSM, dbPath string) error {
 }
 
 func VxSnapshotInstall() {
-	n := vxParam("entries")
+	n := vxParam("entriesR")
+	vxTrimAll = vxParam("trimAllR")
 	entries, states := vxBuildLog(n)
 	applied := vxChoose("entries the lagging replica applied itself", n) // 0..n-1
 	snapAt := applied + 1 + vxChoose("snapshot index beyond that", n-applied)
